@@ -75,7 +75,7 @@ func ksContents(sweepAll bool) []*Content {
 		step := 1
 
 		if !sweepAll && bi > 0 {
-			step = 5
+			step = 9
 		}
 
 		for off := 0; off <= n; off += step {
@@ -87,26 +87,26 @@ func ksContents(sweepAll bool) []*Content {
 }
 
 func TestVerifC19KSChild(t *testing.T) {
-	raw := os.Getenv("C19_CHILD_PARTS")
+	raw := os.Getenv("C19_CHILD_CONTENT")
 	if raw == "" {
 		t.Skip()
 	}
 
-	var parts []Part
-	if err := json.Unmarshal([]byte(raw), &parts); err != nil {
+	var c Content
+	if err := json.Unmarshal([]byte(raw), &c); err != nil {
 		t.Fatal(err)
 	}
 
 	debug.SetMaxStack(64 << 20)
 
-	_, err := keystore.NewKeyStoreFromPEMBytes(Compose(parts), Password)
+	_, err := keystore.NewKeyStoreFromPEMBytes(c.Bytes(), Password)
 	fmt.Println("C19-CHILD-RETURNED", err)
 }
 
-func runChild(parts []Part) (string, string) {
-	raw, _ := json.Marshal(parts)
+func runChild(c *Content) (string, string) {
+	raw, _ := json.Marshal(c)
 	cmd := exec.Command(os.Args[0], "-test.run", "^TestVerifC19KSChild$", "-test.v")
-	cmd.Env = append(os.Environ(), "C19_CHILD_PARTS="+string(raw), "VERIF_OUT=/dev/null")
+	cmd.Env = append(os.Environ(), "C19_CHILD_CONTENT="+string(raw), "VERIF_OUT=/dev/null")
 	out, err := cmd.CombinedOutput()
 
 	switch {
@@ -119,15 +119,24 @@ func runChild(parts []Part) (string, string) {
 	return "SOther", string(out)
 }
 
-func TestVerifC19KS(t *testing.T) {
+// TestVerifC19Misc runs the three streams that need no in-package access in one binary
+// (case indices: key store 0.., trust store 100000.., request 200000..).
+func TestVerifC19Misc(t *testing.T) {
 	w := vf.NewWriter()
 	defer w.Close()
 
+	n := vf.N(460)
+	runKS(w, n*5/9)
+	runTS(w, n*3/9)
+	runReq(w, n/9)
+}
+
+func runKS(w *vf.Writer, nrand int) {
 	root := vf.NewRand(vf.Seed())
 	contents := ksContents(os.Getenv("VERIF_TIER") != "quick")
 	nsys := len(contents)
 
-	for i := 0; i < vf.N(300); i++ {
+	for i := 0; i < nrand; i++ {
 		c := GenContent(root.Fork(uint64(i)))
 		if c.Missing {
 			c.Missing, c.Mut = false, "none"
@@ -151,16 +160,12 @@ func TestVerifC19KS(t *testing.T) {
 			site string
 		)
 
-		if os.Getenv("C19_FX6") == "1" {
-			site, o.Msg = Catch(func() { ks, err = keystore.NewKeyStoreFromPEMBytes(c.Bytes(), Password) })
-		} else if a.Cyclic && c.Mut == "none" {
-			// whether the recursion is reached depends on the key; the child decides
-			site, o.Msg = runChild(c.Parts)
+		if a.Cyclic {
+			// a tree without the repair of C19-F6 dies of a stack overflow here: the child process goes first
+			site, o.Msg = runChild(c)
 			if site == "" {
 				site, o.Msg = Catch(func() { ks, err = keystore.NewKeyStoreFromPEMBytes(c.Bytes(), Password) })
 			}
-		} else if a.Cyclic {
-			continue
 		} else {
 			site, o.Msg = Catch(func() { ks, err = keystore.NewKeyStoreFromPEMBytes(c.Bytes(), Password) })
 		}
@@ -216,18 +221,15 @@ func TestVerifC19KS(t *testing.T) {
 		// with cyclic issuers the validation oracles cannot be asked; no chain is valid then
 		w.Put(vf.Obs{
 			I: i, Stream: "keystore", In: ksCase{Content: c, Oracle: a}, Out: o,
-			Coq:        vf.CoqApp("kc", a.CoqBlocks(), a.CoqChainOK(), obsCoq),
+			Coq:        "(MK " + vf.CoqApp("kc", a.CoqBlocks(), a.CoqChainOK(), obsCoq) + ")",
 			Nontrivial: len(a.Blocks) > 1 || o.Res != "ok",
 			Tags:       tags,
 		})
 	}
 }
 
-func TestVerifC19TS(t *testing.T) {
-	w := vf.NewWriter()
-	defer w.Close()
-
-	root := vf.NewRand(vf.Seed())
+func runTS(w *vf.Writer, nrand int) {
+	root := vf.NewRand(vf.Seed() + 17)
 
 	var contents []*Content
 
@@ -244,7 +246,7 @@ func TestVerifC19TS(t *testing.T) {
 	step := 1
 
 	if os.Getenv("VERIF_TIER") == "quick" {
-		step = 4
+		step = 7
 	}
 
 	for off := 0; off <= n; off += step {
@@ -253,7 +255,7 @@ func TestVerifC19TS(t *testing.T) {
 
 	nsys := len(contents)
 
-	for i := 0; i < vf.N(200); i++ {
+	for i := 0; i < nrand; i++ {
 		r := root.Fork(uint64(i))
 		c := GenContent(r)
 
@@ -274,7 +276,8 @@ func TestVerifC19TS(t *testing.T) {
 		contents = append(contents, c)
 	}
 
-	for i, c := range contents {
+	for k, c := range contents {
+		i := 100000 + k
 		if !vf.Want(i) {
 			continue
 		}
@@ -311,13 +314,13 @@ func TestVerifC19TS(t *testing.T) {
 		}
 
 		tags := append(a.Tags(), "mut="+c.Mut, "res="+strings.SplitN(o.Res, ":", 2)[0], fmt.Sprintf("strict=%v", strict))
-		if i < nsys {
+		if k < nsys {
 			tags = append(tags, "systematic")
 		}
 
 		w.Put(vf.Obs{
 			I: i, Stream: "truststore", In: ksCase{Content: c, Strict: strict, Oracle: a}, Out: o,
-			Coq:        vf.CoqApp("tc", vf.CoqBool(strict), a.CoqBlocks(), vf.CoqBool(a.Trailing), obsCoq),
+			Coq:        "(MT " + vf.CoqApp("tc", vf.CoqBool(strict), a.CoqBlocks(), vf.CoqBool(a.Trailing), obsCoq) + ")",
 			Nontrivial: len(a.Blocks) > 1 || o.Res != "ok",
 			Tags:       tags,
 		})
